@@ -13,7 +13,13 @@
      * rotations come from a table of RATIONAL matrices <<c, s, h>> (cos = c/h, sin = s/h).
    Expression AST (records, field k = kind):
      interval(v, lo, hi)  point(v, p)  par(v, o, a, b)  tri(v, o, a, b)  circle(v, c, r)  sphere(v, c, r)
-     union(l, r) cut(l, r) and(l, r) prod(l, r)  trans(d, t)  rot(d, m, p)  bd(d) bdl(d) bdr(d)           *)
+     union(l, r) cut(l, r) and(l, r) prod(l, r)  trans(d, t)  rot(d, m, p)  bd(d) bdl(d) bdr(d)
+     poly(v, rings)        ShapelyPolygon: rings of CONSTANT quarter-unit vertices, ring 1 = exterior, others = holes,
+                           either orientation; denotation by the crossing number of all rings (closed set)
+     mesh(v, vs, fs, tets) TrimeshPolyhedron: constant quarter-unit vertices vs, surface triangles fs (indices into vs,
+                           any winding) as the code receives them, and a decomposition tets (4 indices each) that the
+                           oracle uses: the set is the union of the closed tetrahedra (MeshWF checks that the surface
+                           of the decomposition is exactly fs)                                                        *)
 EXTENDS Integers, Sequences, FiniteSets
 F == 256          \* fine units per real unit
 Q4 == 64          \* fine units per quarter unit
@@ -25,6 +31,16 @@ SumOver(S, f) == IF S = {} THEN 0 ELSE LET x == CHOOSE x \in S : TRUE IN f[x] + 
 
 RotTab == [r0 |-> <<1, 0, 1>>, r90 |-> <<0, 1, 1>>, r180 |-> <<-1, 0, 1>>, r270 |-> <<0, -1, 1>>,
            p345 |-> <<4, 3, 5>>, m345 |-> <<4, -3, 5>>, p51213 |-> <<12, 5, 13>>]
+\* a rot node rotates by the matrix R = M / h:
+\*   m in DOMAIN RotTab : the 2-D matrix (c, -s; s, c) / h of the table;
+\*   m = "quarter"      : 2-D rotation by (pi/2) * value(an) of the parameter an (Rotate.from_angles with an angle FUNCTION);
+\*   m in DOMAIN Rot3Tab: a 3-D rotation given as integer matrix and denominator (about z, about x, about y, about z then x)
+QuarterNames == <<"r0", "r90", "r180", "r270">>
+Rot3Tab == [z345 |-> <<<<<<4, -3, 0>>, <<3, 4, 0>>, <<0, 0, 5>>>>, 5>>,
+            x345 |-> <<<<<<5, 0, 0>>, <<0, 4, -3>>, <<0, 3, 4>>>>, 5>>,
+            y90  |-> <<<<<<0, 0, 1>>, <<0, 1, 0>>, <<-1, 0, 0>>>>, 1>>,
+            zx   |-> <<<<<<20, -12, 9>>, <<15, 16, -12>>, <<0, 15, 20>>>>, 25>>]        \* z345 * x345
+Mat2(t) == <<<<<<t[1], -t[2]>>, <<t[2], t[1]>>>>, t[3]>>
 
 (* ---------------------------- affine forms ---------------------------- *)
 \* value of affine form a at Q, in fine units times Q.w
@@ -43,6 +59,54 @@ WithVal(Q, v, xs) == [Q EXCEPT !.val[v] = xs]
 \* multiply the homogeneous scale by h, giving variable v the (already h-scaled) coordinates xs
 Rescale(Q, v, xs, h) == [val |-> [n \in DOMAIN Q.val |-> IF n = v THEN xs ELSE [i \in DOMAIN Q.val[n] |-> Q.val[n][i] * h]],
                          w |-> Q.w * h]
+(* ---------------------------- polygons and polyhedra ---------------------------- *)
+\* directed edges <<a, b>> of all rings of a polygon (vertices in quarter units)
+RingEdges(r) == {<<r[i], r[(i % Len(r)) + 1]>> : i \in DOMAIN r}
+PolyEdges(e) == UNION {RingEdges(e.rings[j]) : j \in DOMAIN e.rings}
+MinI(a, b) == IF a <= b THEN a ELSE b
+MaxI(a, b) == IF a >= b THEN a ELSE b
+\* closed polygon with holes: on an edge, or an odd number of edges crossed by the ray from the point towards +x
+PolyIn(e, Q) ==
+  LET qx == Q.val[e.v][1]   qy == Q.val[e.v][2]   s == Q4 * Q.w
+      Cr(ed) == LET ax == ed[1][1] * s  ay == ed[1][2] * s  bx == ed[2][1] * s  by == ed[2][2] * s
+                IN (bx - ax) * (qy - ay) - (by - ay) * (qx - ax)
+      On(ed) == LET ax == ed[1][1] * s  ay == ed[1][2] * s  bx == ed[2][1] * s  by == ed[2][2] * s
+                IN Cr(ed) = 0 /\ MinI(ax, bx) <= qx /\ qx <= MaxI(ax, bx) /\ MinI(ay, by) <= qy /\ qy <= MaxI(ay, by)
+      Crossed(ed) == LET ay == ed[1][2] * s  by == ed[2][2] * s
+                     IN ((ay > qy) # (by > qy)) /\ (IF by > ay THEN Cr(ed) > 0 ELSE Cr(ed) < 0)
+  IN (\E ed \in PolyEdges(e) : On(ed)) \/ Cardinality({ed \in PolyEdges(e) : Crossed(ed)}) % 2 = 1
+\* cross product / dot product of integer 3-vectors
+Cross3(u, w) == <<u[2] * w[3] - u[3] * w[2], u[3] * w[1] - u[1] * w[3], u[1] * w[2] - u[2] * w[1]>>
+Dot3(u, w) == u[1] * w[1] + u[2] * w[2] + u[3] * w[3]
+Sub3(u, w) == <<u[1] - w[1], u[2] - w[2], u[3] - w[3]>>
+\* closed tetrahedron (a, b, c, d in quarter units): for every face the query point is not strictly on the other side than the
+\* opposite vertex; face normals are computed in quarter units, only the last dot product is in fine units
+TetIn(a, b, c, d, q, s) ==
+  LET Side(p1, p2, p3, o) == LET nrm == Cross3(Sub3(p2, p1), Sub3(p3, p1))
+                                 so == Sgn(Dot3(nrm, Sub3(o, p1)))
+                                 sq == Sgn(Dot3(nrm, <<q[1] - p1[1] * s, q[2] - p1[2] * s, q[3] - p1[3] * s>>))
+                             IN sq = 0 \/ sq = so
+  IN Side(a, b, c, d) /\ Side(a, b, d, c) /\ Side(a, c, d, b) /\ Side(b, c, d, a)
+MeshIn(e, Q) == LET q == Q.val[e.v]  s == Q4 * Q.w IN
+                \E i \in DOMAIN e.tets : LET t == e.tets[i] IN TetIn(e.vs[t[1]], e.vs[t[2]], e.vs[t[3]], e.vs[t[4]], q, s)
+\* well-formedness of a mesh term: the triangles of the decomposition that belong to exactly one tetrahedron are exactly the
+\* surface triangles handed to the code (as vertex sets), and no tetrahedron is flat
+TetFaces(t) == {{t[1], t[2], t[3]}, {t[1], t[2], t[4]}, {t[1], t[3], t[4]}, {t[2], t[3], t[4]}}
+TetDet(e, t) == Dot3(Cross3(Sub3(e.vs[t[2]], e.vs[t[1]]), Sub3(e.vs[t[3]], e.vs[t[1]])), Sub3(e.vs[t[4]], e.vs[t[1]]))
+MeshWF(e) == /\ \A i \in DOMAIN e.tets : TetDet(e, e.tets[i]) # 0
+             /\ LET all == UNION {TetFaces(e.tets[i]) : i \in DOMAIN e.tets}
+                    outer == {f \in all : Cardinality({i \in DOMAIN e.tets : f \in TetFaces(e.tets[i])}) = 1}
+                IN outer = {{e.fs[j][1], e.fs[j][2], e.fs[j][3]} : j \in DOMAIN e.fs} /\ Cardinality(outer) = Len(e.fs)
+\* twice the signed area of a ring (shoelace), quarter units squared
+RECURSIVE ShoeR(_, _)
+ShoeR(r, i) == IF i > Len(r) THEN 0
+               ELSE LET a == r[i]  b == r[(i % Len(r)) + 1] IN a[1] * b[2] - a[2] * b[1] + ShoeR(r, i + 1)
+RotM(e, Q) == IF e.m = "quarter" THEN Mat2(RotTab[QuarterNames[((Q.val[e.an][1] \div (F * Q.w)) % 4) + 1]])
+              ELSE IF e.m \in DOMAIN RotTab THEN Mat2(RotTab[e.m]) ELSE Rot3Tab[e.m]
+\* the point whose image under the rotation is Q (inverse rotation R^T about p), on the scale multiplied by h
+RotBack(e, Q) == LET mh == RotM(e, Q)  M == mh[1]  h == mh[2]  p == AffV(e.p, Q)  q == Q.val[e.v]
+                     dq == [j \in DOMAIN q |-> q[j] - p[j]]
+                 IN Rescale(Q, e.v, [i \in DOMAIN q |-> SumOver(DOMAIN q, [j \in DOMAIN q |-> M[j][i] * dq[j]]) + p[i] * h], h)
 RECURSIVE In(_, _)
 In(e, Q) ==
   CASE e.k = "interval" -> LET x == Q.val[e.v][1] IN Aff(e.lo, Q) <= x /\ x <= Aff(e.hi, Q)
@@ -64,22 +128,22 @@ In(e, Q) ==
          LET c == AffV(e.c, Q)  r == Aff(e.r, Q)
              d == [i \in DOMAIN c |-> Q.val[e.v][i] - c[i]]
          IN SumOver(DOMAIN c, [i \in DOMAIN c |-> d[i] * d[i]]) <= r * r
+    [] e.k = "poly" -> PolyIn(e, Q)
+    [] e.k = "mesh" -> MeshIn(e, Q)
     [] e.k = "union" -> In(e.l, Q) \/ In(e.r, Q)
     [] e.k = "cut"   -> In(e.l, Q) /\ ~In(e.r, Q)
     [] e.k = "and"   -> In(e.l, Q) /\ In(e.r, Q)
     [] e.k = "prod"  -> In(e.l, Q) /\ In(e.r, Q)
     [] e.k = "trans" -> LET t == AffV(e.t, Q) IN
                         In(e.d, WithVal(Q, e.v, [i \in DOMAIN t |-> Q.val[e.v][i] - t[i]]))
-    [] e.k = "rot"   -> LET m == RotTab[e.m]  c == m[1]  s == m[2]  h == m[3]  p == AffV(e.p, Q)
-                            qx == Q.val[e.v][1] - p[1]   qy == Q.val[e.v][2] - p[2]
-                        IN In(e.d, Rescale(Q, e.v, << c * qx + s * qy + p[1] * h, -s * qx + c * qy + p[2] * h >>, h))
+    [] e.k = "rot"   -> In(e.d, RotBack(e, Q))
 
 \* the space variables of an expression, in order, with their dimensions
 RECURSIVE SpaceOf(_)
 SpaceOf(e) == CASE e.k = "interval" -> <<<<e.v, 1>>>>
                 [] e.k = "point" -> <<<<e.v, Len(e.p)>>>>
-                [] e.k \in {"par", "tri", "circle"} -> <<<<e.v, 2>>>>
-                [] e.k = "sphere" -> <<<<e.v, 3>>>>
+                [] e.k \in {"par", "tri", "circle", "poly"} -> <<<<e.v, 2>>>>
+                [] e.k \in {"sphere", "mesh"} -> <<<<e.v, 3>>>>
                 [] e.k \in {"union", "cut", "and"} -> SpaceOf(e.l)
                 [] e.k = "prod" -> SpaceOf(e.l) \o SpaceOf(e.r)
                 [] e.k \in {"trans", "rot", "bd", "bdl", "bdr"} -> SpaceOf(e.d)
@@ -99,13 +163,11 @@ NearBdBox(e, Q, eps) == {In(e, P) : P \in StencilBox(e, Q, eps)} = {TRUE, FALSE}
 \* number of primitive leaves of e whose OWN boundary passes within eps of Q (Q transported into the leaf's frame)
 RECURSIVE LeafBdCount(_, _, _)
 LeafBdCount(e, Q, eps) ==
-  CASE e.k \in {"interval", "point", "par", "tri", "circle", "sphere"} -> IF NearBdBox(e, Q, eps) THEN 1 ELSE 0
+  CASE e.k \in {"interval", "point", "par", "tri", "circle", "sphere", "poly", "mesh"} -> IF NearBdBox(e, Q, eps) THEN 1 ELSE 0
     [] e.k \in {"union", "cut", "and", "prod"} -> LeafBdCount(e.l, Q, eps) + LeafBdCount(e.r, Q, eps)
     [] e.k = "trans" -> LET t == AffV(e.t, Q) IN
                         LeafBdCount(e.d, WithVal(Q, e.v, [i \in DOMAIN t |-> Q.val[e.v][i] - t[i]]), eps)
-    [] e.k = "rot"   -> LET m == RotTab[e.m]  c == m[1]  s == m[2]  h == m[3]  p == AffV(e.p, Q)
-                            qx == Q.val[e.v][1] - p[1]   qy == Q.val[e.v][2] - p[2]
-                        IN LeafBdCount(e.d, Rescale(Q, e.v, << c * qx + s * qy + p[1] * h, -s * qx + c * qy + p[2] * h >>, h), eps)
+    [] e.k = "rot"   -> LeafBdCount(e.d, RotBack(e, Q), eps)
     [] OTHER -> 0
 \* within eps of the (topological) boundary of Den(e): the eps-stencil is mixed
 NearBd(e, Q, eps) == {In(e, P) : P \in Stencil(e, Q, eps)} = {TRUE, FALSE}
@@ -124,10 +186,11 @@ FreeVars(e) ==
     [] e.k = "point" -> AffVVars(e.p)
     [] e.k \in {"par", "tri"} -> AffVVars(e.o) \cup AffVVars(e.a) \cup AffVVars(e.b)
     [] e.k \in {"circle", "sphere"} -> AffVVars(e.c) \cup AffVars(e.r)
+    [] e.k \in {"poly", "mesh"} -> {}
     [] e.k \in {"union", "cut", "and"} -> FreeVars(e.l) \cup FreeVars(e.r)
     [] e.k = "prod" -> (FreeVars(e.l) \ SpaceVars(e.r)) \cup FreeVars(e.r)
     [] e.k = "trans" -> FreeVars(e.d) \cup AffVVars(e.t)
-    [] e.k = "rot" -> FreeVars(e.d) \cup AffVVars(e.p)
+    [] e.k = "rot" -> FreeVars(e.d) \cup AffVVars(e.p) \cup (IF e.m = "quarter" THEN {e.an} ELSE {})
     [] e.k \in {"bd", "bdl", "bdr"} -> FreeVars(e.d)
 RECURSIVE PE(_, _)
 PE(e, b) ==
@@ -135,9 +198,12 @@ PE(e, b) ==
     [] e.k = "point" -> [e EXCEPT !.p = AffVPE(e.p, b)]
     [] e.k \in {"par", "tri"} -> [e EXCEPT !.o = AffVPE(e.o, b), !.a = AffVPE(e.a, b), !.b = AffVPE(e.b, b)]
     [] e.k \in {"circle", "sphere"} -> [e EXCEPT !.c = AffVPE(e.c, b), !.r = AffPE(e.r, b)]
+    [] e.k \in {"poly", "mesh"} -> e
     [] e.k \in {"union", "cut", "and", "prod"} -> [e EXCEPT !.l = PE(e.l, b), !.r = PE(e.r, b)]
     [] e.k = "trans" -> [e EXCEPT !.d = PE(e.d, b), !.t = AffVPE(e.t, b)]
-    [] e.k = "rot" -> [e EXCEPT !.d = PE(e.d, b), !.p = AffVPE(e.p, b)]
+    [] e.k = "rot" -> IF e.m = "quarter" /\ e.an \in DOMAIN b
+                      THEN [k |-> "rot", v |-> e.v, d |-> PE(e.d, b), m |-> QuarterNames[(b[e.an] % 4) + 1], p |-> AffVPE(e.p, b)]
+                      ELSE [e EXCEPT !.d = PE(e.d, b), !.p = AffVPE(e.p, b)]
     [] e.k \in {"bd", "bdl", "bdr"} -> [e EXCEPT !.d = PE(e.d, b)]
 
 (* ---------------------------- exact measures ---------------------------- *)
@@ -154,7 +220,7 @@ Len1024(dx, dy) == ISqrt((dx * dx + dy * dy) * 65536)
 MAdd(m1, m2) == LET d == m1[3] * m2[3] IN <<m1[1] * m2[3] + m2[1] * m1[3], m1[2] * m2[3] + m2[2] * m1[3], d>>
 MSub(m1, m2) == MAdd(m1, <<-m2[1], -m2[2], m2[3]>>)
 MMul(m1, m2) == <<m1[1] * m2[1], m1[1] * m2[2] + m1[2] * m2[1], m1[3] * m2[3]>>      \* valid when at most one factor has a pi part
-HasVol(e) == e.k \in {"interval", "point", "par", "tri", "circle", "sphere", "trans", "rot", "bd", "bdl", "bdr", "prod", "union", "cut"}
+HasVol(e) == e.k \in {"interval", "point", "par", "tri", "circle", "sphere", "poly", "mesh", "trans", "rot", "bd", "bdl", "bdr", "prod", "union", "cut"}
 RECURSIVE Vol(_, _)
 Vol(e, env) ==
   CASE e.k = "interval" -> <<AffQ(e.hi, env) - AffQ(e.lo, env), 0, 4>>
@@ -165,6 +231,8 @@ Vol(e, env) ==
          IN <<AbsI(det), 0, IF e.k = "par" THEN 16 ELSE 32>>
     [] e.k = "circle" -> LET r == AffQ(e.r, env) IN <<0, r * r, 16>>
     [] e.k = "sphere" -> LET r == AffQ(e.r, env) IN <<0, 4 * r * r * r, 3 * 64>>
+    [] e.k = "poly" -> <<AbsI(ShoeR(e.rings[1], 1)) - SumOver(2..Len(e.rings), [j \in 2..Len(e.rings) |-> AbsI(ShoeR(e.rings[j], 1))]), 0, 32>>
+    [] e.k = "mesh" -> <<SumOver(DOMAIN e.tets, [i \in DOMAIN e.tets |-> AbsI(TetDet(e, e.tets[i]))]), 0, 6 * 64>>
     [] e.k \in {"trans", "rot"} -> Vol(e.d, env)
     [] e.k = "prod" -> MMul(Vol(e.l, env), Vol(e.r, env))              \* independent factors
     [] e.k = "union" -> MAdd(Vol(e.l, env), Vol(e.r, env))             \* declared (and verified) disjoint
@@ -181,6 +249,11 @@ Vol(e, env) ==
                     l2 == Len1024(b[1] - o[1], b[2] - o[2])
                     l3 == Len1024(b[1] - a[1], b[2] - a[2])
                 IN IF d.k = "par" THEN <<2 * (l1 + l2), 0, 1024>> ELSE <<l1 + l2 + l3, 0, 1024>>
+           [] d.k = "poly" -> <<SumOver(PolyEdges(d), [ed \in PolyEdges(d) |-> Len1024(ed[2][1] - ed[1][1], ed[2][2] - ed[1][2])]), 0, 1024>>
+           \* area of a surface triangle = |cross| / 2 quarter units squared = |cross| / 32; ISqrt(|cross|^2 * 16384) = 128 |cross|
+           [] d.k = "mesh" -> <<SumOver(DOMAIN d.fs, [j \in DOMAIN d.fs |->
+                                   LET f == d.fs[j]  cr == Cross3(Sub3(d.vs[f[2]], d.vs[f[1]]), Sub3(d.vs[f[3]], d.vs[f[1]]))
+                                   IN ISqrt(Dot3(cr, cr) * 16384)]), 0, 4096>>
            [] d.k \in {"trans", "rot"} -> Vol([k |-> "bd", d |-> d.d], env)
 \* observed value v (fixed point 2^-10) against measure m: | v * den - (a + bpi*pi) * 1024 | <= tol, pi ~ 3217/1024
 \* relative tolerance 2^-8 plus 4 units absolute
@@ -195,7 +268,7 @@ VolPositive(m) == m[1] * 1024 + m[2] * PiN > 0
 \* <<min1, max1, min2, max2, ...>> in fine units, at integer parameter row env
 MinS(S) == CHOOSE x \in S : \A y \in S : x <= y
 MaxS(S) == CHOOSE x \in S : \A y \in S : x >= y
-HasBox(e) == e.k \in {"interval", "par", "tri", "circle", "sphere"}
+HasBox(e) == e.k \in {"interval", "par", "tri", "circle", "sphere", "poly", "mesh"}
 BoxExact(e, env) ==
   CASE e.k = "interval" -> <<AffQ(e.lo, env) * Q4, AffQ(e.hi, env) * Q4>>
     [] e.k = "par" -> LET o == AffVQ(e.o, env)  a == AffVQ(e.a, env)  b == AffVQ(e.b, env)
@@ -204,6 +277,11 @@ BoxExact(e, env) ==
     [] e.k = "tri" -> LET o == AffVQ(e.o, env)  a == AffVQ(e.a, env)  b == AffVQ(e.b, env)
                           xs == {o[1], a[1], b[1]}  ys == {o[2], a[2], b[2]}
                       IN <<MinS(xs) * Q4, MaxS(xs) * Q4, MinS(ys) * Q4, MaxS(ys) * Q4>>
+    [] e.k = "poly" -> LET r == e.rings[1]  xs == {r[i][1] : i \in DOMAIN r}  ys == {r[i][2] : i \in DOMAIN r}
+                       IN <<MinS(xs) * Q4, MaxS(xs) * Q4, MinS(ys) * Q4, MaxS(ys) * Q4>>
+    [] e.k = "mesh" -> LET used == UNION {{e.fs[j][1], e.fs[j][2], e.fs[j][3]} : j \in DOMAIN e.fs}
+                       IN [j \in 1..6 |-> LET ax == (j + 1) \div 2  cs == {e.vs[i][ax] : i \in used}
+                                          IN (IF j % 2 = 1 THEN MinS(cs) ELSE MaxS(cs)) * Q4]
     [] e.k \in {"circle", "sphere"} ->
          LET c == AffVQ(e.c, env)  r == AffQ(e.r, env)
          IN [j \in 1..(2 * Len(c)) |-> IF j % 2 = 1 THEN (c[(j + 1) \div 2] - r) * Q4 ELSE (c[j \div 2] + r) * Q4]
